@@ -485,6 +485,42 @@ CAMPAIGNS['C09'].append(
          THREAD_RULE + '; 5-8 threads (up to 24 operations) in one to three '
          'shared directory chains', nontrivial=nt_threads,
          post='tag_all:C09', weight=0.4))
+CAMPAIGNS['C07'].append(
+    camp('c07-threads', 'threads', {'p_same_key': 1.0, 'p_spell': 0.8},
+         'cache identity under concurrency: 2-4 simulated threads issue one '
+         'key spelled differently (1 / 1.0, tuple / list, key order, '
+         'non-string keys; bytes / PathLike / redundant separators / ".." '
+         'paths): exactly one execution, the others get RuntimeError',
+         nontrivial=nt_threads, post='tag_all:C07', weight=0.5))
+CAMPAIGNS['C16'].append(
+    camp('c16-wide-write-faults', 'wide', {},
+         'the cache write fails (open / write / close, torn) at the end of a '
+         'build that moved more than 128 files aside: the previous cache '
+         'file and every output are back', mode='oserror-sweep',
+         nontrivial=nt_rollback_restored, chunk=1, follow=1, weight=0.4,
+         only_calls=['gzopen_w', 'gzwrite', 'gzclose'], post='tag_all:C16',
+         sweep_max={'quick': 3, 'thorough': None}))
+CAMPAIGNS['C10'].append(camp(
+    'c10-chains-faults', 'C10',
+    dict(NESTED_FAIL, p_chain=0.9, p_mutate_step=0.05, p_clean_step=0.0,
+         n_steps=(2, 4), p_catch=0.95),
+    'chains of three and more nested build_file / subbuild calls in '
+    'directories the build creates, last build mostly an unchanged rebuild '
+    '(cached trees are re-applied): mkdir / rename failing at every index, '
+    'caught by the caller - the directories of the failed call are gone at '
+    'once in the view and on disk at the end',
+    mode='oserror-sweep', nontrivial=nt_rollback_restored, chunk=6, follow=1,
+    torn=False, errnos=['ENOSPC', 'EACCES'], post='tag_all:C10', weight=0.7,
+    sweep_max={'quick': 12, 'thorough': None}))
+CAMPAIGNS['C02'].append(
+    camp('c02-threads-crash', 'threads',
+         {'p_foreign': 0.6, 'p_tamper': 0.7, 'p_fail': 0.15},
+         'builds in which 2-4 simulated threads move previous outputs and '
+         'foreign files aside concurrently, crashed at every raise '
+         'opportunity of the last build: every file is back afterwards',
+         mode='crash-sweep', nontrivial=nt_threads, chunk=4,
+         fault_step='lastbuild', post='tag_all:C02', weight=0.5,
+         sweep_max={'quick': 10, 'thorough': None}, follow=1))
 RACE_RULE = ('a key (build_file path / subbuild name+arguments) performed '
              'directly by one thread while another thread reuses or '
              're-executes a cached subtree (depth 1-2) that contains it; '
